@@ -4,7 +4,7 @@
     Run by ocaml/build.sh inside /verif/ocaml (coqc writes model.ml into the current directory). *)
 From Coq Require Extraction ExtrOcamlBasic.
 From Coq Require Import ZArith NArith List.
-From Morlock.Model Require Import Score Bits Attacks Move Position Zobrist Board Abs Search TT SearchBoard.
+From Morlock.Model Require Import Score Bits Attacks Move Position Zobrist Board Abs Search TT SearchBoard Fen Engine EngineSpec.
 From Morlock.Spec Require Chess Game Minimax.
 Extraction Language OCaml.
 Extraction "model.ml"
@@ -31,4 +31,7 @@ Extraction "model.ml"
   SearchBoard.search_board SearchBoard.minimax_board SearchBoard.material SearchBoard.full_exploration SearchBoard.captures_only
   SearchBoard.f32_of_int
   TT.new_table TT.tt_read TT.tt_write_ok TT.tt_used TT.occupied TT.val TT.cstep TT.crun TT.c_init TT.c_occupied TT.c_quiescent
-  Minimax.spec_mm Minimax.spec_qv Minimax.spec_material_int.
+  Minimax.spec_mm Minimax.spec_qv Minimax.spec_material_int
+  Fen.decode Fen.encode Fen.parse_move Fen.parse_square_str Fen.parse_piece Fen.atoi Fen.itoa Fen.fen_initial
+  Engine.eng_reset Engine.eng_move Engine.eng_takeback Engine.eng_position Engine.cmd_position Engine.cmd_ucinewgame
+  EngineSpec.setup EngineSpec.smove_of_str EngineSpec.gstate_of_fen EngineSpec.wf_value.
